@@ -9,6 +9,7 @@ Ghost state (specification only, no counterpart in the code):
                         "A:<rule id>" = Rule.analyze ran, "U" = vhdlFile.update was called (only a fixable rule's fix() does that),
                         "indent", "blank", "trail", "map" = the vhdlFile normalisers.
   fixlog: list[obj]  -- the violations handed to _fix_violation, in order.
+  nerr  : int        -- number of violations produced so far by analyses of error-severity rules.
 """
 
 RULE = "obj:vsg.rule.Rule"
@@ -16,6 +17,7 @@ VIOL = "obj:vsg.violation.New"
 FIXONLY = "opt[rec{fix?:rec{rule?:dict[str,list[val]]}}]"
 
 GHOSTS = {
+    "nerr": "int",
     "oplog": "list[str]",
     "fixlog": "list[" + VIOL + "]",
 }
@@ -101,8 +103,11 @@ CONTRACTS = {
     # ASSUMED here (it is what C06 checks: effect scan + bounded snapshot over the corpus).
     "vsg.rule.Rule.analyze": dict(
         types={"oFile": "obj:vsg.vhdlFile.vhdlFile.vhdlFile"},
-        modifies=["self.violations", "ghost:oplog"],
-        ensures=["oplog == old(oplog) + ['A:' + self.unique_id]"],
+        modifies=["self.violations", "ghost:oplog", "ghost:nerr"],
+        ensures=[
+            "oplog == old(oplog) + ['A:' + self.unique_id]",
+            "nerr == old(nerr) + (len(self.violations) if self.severity.type == 'error' else 0)",
+        ],
         trusted="abstract contract of a virtual method (frame of analysis); see C06",
     ),
     "vsg.rule.Rule._fix_violation": dict(
@@ -159,5 +164,117 @@ CONTRACTS = {
                 ]
             )
         },
+    ),
+}
+
+RL = "obj:vsg.rule_list.rule_list"
+SKIP = "opt[list[int]]"
+
+CONTRACTS.update(
+    {
+        # ------------------------------------------------------------------ vsg/rule_list.py helpers
+        "vsg.rule_list.rule_list.get_rules_in_phase": dict(
+            types={"iPhaseNumber": "int"},
+            returns="list[%s]" % RULE,
+            locals={"lReturn": "list[%s]" % RULE},
+            ensures=["result == in_phase(self.rules, iPhaseNumber)"],
+            loops={1: dict(invariant=["lReturn == in_phase(self.rules[:_i], iPhaseNumber)"])},
+        ),
+        "vsg.rule_list.rule_list.get_rules_in_subphase": dict(
+            types={"lRules": "list[%s]" % RULE, "iSubPhase": "int"},
+            returns="list[%s]" % RULE,
+            locals={"lReturn": "list[%s]" % RULE},
+            ensures=["result == in_subphase(lRules, iSubPhase)"],
+            loops={1: dict(invariant=["lReturn == in_subphase(lRules[:_i], iSubPhase)"])},
+        ),
+        "vsg.rule_list.filter_out_disabled_rules": dict(
+            types={"lRules": "list[%s]" % RULE},
+            returns="list[%s]" % RULE,
+            locals={"lReturn": "list[%s]" % RULE},
+            ensures=["result == enabled(lRules)"],
+            loops={1: dict(invariant=["lReturn == enabled(lRules[:_i])"])},
+        ),
+        "vsg.rule_list.enforce_prerequisites": dict(
+            types={"lRules": "list[%s]" % RULE},
+            returns="list[%s]" % RULE,
+            locals={"lReturn": "list[%s]" % RULE, "lPrereqs": "list[%s]" % RULE},
+            ensures=["result == noprereq(lRules) + hasprereq(lRules)"],
+            loops={1: dict(invariant=["lReturn == noprereq(lRules[:_i])", "lPrereqs == hasprereq(lRules[:_i])"])},
+        ),
+        # ------------------------------------------------------------------ rule_list.fix  (C13 F1/F2, C03 gating)
+        "vsg.rule_list.rule_list.fix": dict(
+            types={"iFixPhase": "int", "lSkipPhase": SKIP, "dFixOnly": FIXONLY},
+            modifies=["self.had_violations", "heap:Rule.violations", "heap:Rule.had_violations", "ghost:oplog", "ghost:fixlog"],
+            ensures=[
+                # exactly the phases 1..iFixPhase that are not skipped, sub-phases 0..5 in order, enabled rules only,
+                # rules with prerequisites last; error-type rules are fixed ('A','U'), other severities only analysed ('A'),
+                # rules configured fixable:false produce no event at all; normalisers after phase 1, indent before phase 4
+                "oplog == old(oplog) + fix_phases(irange(1, iFixPhase + 1), self.rules, lSkipPhase)",
+            ],
+            loops={
+                1: dict(invariant=["oplog == old(oplog) + fix_phases(irange(1, 1 + _i), self.rules, lSkipPhase)"]),
+                2: dict(invariant=["oplog == entry(oplog) + fix_subphases(irange(0, _i), self.rules, phase)"]),
+                3: dict(invariant=["oplog == entry(oplog) + fix_events(lRules[:_i])"]),
+            },
+        ),
+        # ------------------------------------------------------------------ rule_list.check_rules  (C13 G1-G4)
+        "vsg.rule_list.rule_list.check_rules": dict(
+            types={"bAllPhases": "bool", "lSkipPhase": SKIP},
+            modifies=["self.iNumberRulesRan", "self.lastPhaseRan", "self.violations", "heap:Rule.violations", "ghost:oplog", "ghost:nerr"],
+            ensures=[
+                # G1/G2: the analysed rules are exactly the enabled rules of the non-skipped phases 1.._n1, each once,
+                #        in (phase, sub-phase, list) order   (_n1 = number of phases visited)
+                "oplog == old(oplog) + check_phases(irange(1, 1 + _n1), self.rules, lSkipPhase)",
+                "1 <= _n1 and _n1 <= 7",
+                # G3: all phases with --all_phases; otherwise stop after the FIRST phase with an error-severity violation
+                "implies(bAllPhases, _n1 == 7)",
+                "implies(_n1 < 7, self.violations and not bAllPhases)",
+                "implies(not bAllPhases and self.violations, lasthead(1, nerr) == old(nerr) and lasthead(1, oplog) == old(oplog) + check_phases(irange(1, _n1), self.rules, lSkipPhase))",
+                # G4: the exit flag is set exactly when an error-severity violation was produced (warnings never set it)
+                "self.violations == (nerr > old(nerr))",
+                "self.iNumberRulesRan == len(oplog) - len(old(oplog))",
+            ],
+            loops={
+                1: dict(
+                    invariant=[
+                        "oplog == old(oplog) + check_phases(irange(1, 1 + _i), self.rules, lSkipPhase)",
+                        "self.violations == (iFailures > 0)",
+                        "iFailures == nerr - old(nerr)",
+                        "iFailures >= 0",
+                        "implies(not bAllPhases, not self.violations)",
+                        "self.iNumberRulesRan == len(oplog) - len(old(oplog))",
+                    ]
+                ),
+                2: dict(
+                    invariant=[
+                        "oplog == entry(oplog) + check_subphases(irange(0, _i), self.rules, phase)",
+                        "iFailures == nerr - old(nerr)",
+                        "iFailures >= entry(iFailures)",
+                        "implies(_i > 0, self.violations == (iFailures > 0))",
+                        "implies(_i == 0, self.violations == entry(self.violations) and iFailures == entry(iFailures))",
+                        "self.iNumberRulesRan == len(oplog) - len(old(oplog))",
+                    ]
+                ),
+                3: dict(
+                    invariant=[
+                        "oplog == entry(oplog) + check_events(lRules[:_i])",
+                        "iFailures == nerr - old(nerr)",
+                        "iFailures >= entry(iFailures)",
+                        "self.violations == entry(self.violations)",
+                        "self.iNumberRulesRan == len(oplog) - len(old(oplog))",
+                    ]
+                ),
+            },
+        ),
+    }
+)
+
+LEMMAS = {
+    # "the gated report is always the corresponding prefix of the all-phases report":
+    # the gated run analyses check_phases(1..K), the all-phases run check_phases(1..7) (same rules, same skip set)
+    "gated_is_prefix_of_all_phases": dict(
+        vars={"rules": "list[%s]" % RULE, "skip": "list[int]", "K": "int"},
+        requires=["1 <= K", "K <= 7"],
+        ensures=["check_phases(irange(1, 8), rules, skip) == check_phases(irange(1, K + 1), rules, skip) + check_phases(irange(K + 1, 8), rules, skip)"],
     ),
 }
